@@ -33,8 +33,60 @@ pub struct KmCase {
     pub n_runs: usize,
     pub tolerances: Vec<f64>,
     pub max_len: usize,
+    /// large-batch family: the listed pool entries hold a few distinct points and are blown up to
+    /// `n` rows when the case is run ("cyclic": row i = point i mod m; "blocks": all copies of
+    /// point 0, then of point 1, ...; the last point takes the remainder)
+    #[serde(default, skip_serializing_if = "Vec::is_empty")]
+    pub replicate: Vec<Replicate>,
     #[serde(default, skip_serializing_if = "Option::is_none")]
     pub only_history: Option<Vec<usize>>,
+}
+
+#[derive(Clone, Debug, Serialize, Deserialize)]
+pub struct Replicate {
+    pub batch: usize,
+    pub n: usize,
+    pub layout: String,
+}
+
+/// batches with more rows than this are compared with the looser LARGE tolerances
+const LARGE_BATCH: usize = 64;
+/// centroids / inertia of a large batch: relative 1e-9 (a different but correct summation order
+/// over thousands of rows differs from the per-row recurrence by ~n * 1e-16)
+pub const KM_TOL_LARGE: f64 = 1e-9;
+/// relative half-width of the band around the tolerance inside which the converged / not-converged
+/// verdict is not judged (unless the shift is decided in exact arithmetic)
+pub const VERDICT_BAND: f64 = 1e-9;
+pub const VERDICT_BAND_LARGE: f64 = 1e-6;
+
+fn expand_pool(case: &KmCase) -> Vec<Vec<Vec<f64>>> {
+    let mut pool = case.pool.clone();
+    for r in &case.replicate {
+        let pts = case.pool[r.batch].clone();
+        let m = pts.len();
+        let mut rows = Vec::with_capacity(r.n);
+        if r.layout == "cyclic" {
+            for i in 0..r.n {
+                rows.push(pts[i % m].clone());
+            }
+        } else {
+            let per = r.n / m;
+            for (pi, p) in pts.iter().enumerate() {
+                let cnt = if pi == m - 1 { r.n - per * (m - 1) } else { per };
+                for _ in 0..cnt {
+                    rows.push(p.clone());
+                }
+            }
+        }
+        pool[r.batch] = rows;
+    }
+    pool
+}
+
+/// exactly representable "small dyadic rational": multiple of 2^-10 below 2^10 in magnitude; sums,
+/// differences, squares and products with small integers of such numbers are exact in f64
+fn on_grid(v: f64) -> bool {
+    v.is_finite() && v.abs() < 1024.0 && (v * 1024.0).fract() == 0.0
 }
 
 fn default_metric() -> String {
@@ -131,6 +183,10 @@ struct RefOut {
     st: KState,
     shift: f64,
     inertia: f64,
+    /// every operation that produced the new centroids and the shift was exact (all operands
+    /// small dyadic rationals, every division and the square root exact): `shift` IS the real
+    /// number, so `shift < tolerance` can be judged exactly, even at equality
+    exact: bool,
 }
 
 /// Own recurrence: assign every row of the batch to its nearest centroid of the PREVIOUS state
@@ -158,16 +214,25 @@ fn ref_step(metric: Metric, prev: &KState, batch: &[Vec<f64>]) -> Option<(Vec<Re
     loop {
         let mut c = prev.c.clone();
         let mut cnt = prev.cnt.clone();
+        let mut exact = prev.c.iter().flatten().all(|v| on_grid(*v)) && batch.len() <= LARGE_BATCH;
         for (i, x) in batch.iter().enumerate() {
             let m = tie_sets[i][choice[i]];
             cnt[m] += 1.0;
             for j in 0..x.len() {
-                let sh = (x[j] - c[m][j]) / cnt[m];
+                let diff = x[j] - c[m][j];
+                let sh = diff / cnt[m];
                 c[m][j] += sh;
+                exact = exact && on_grid(x[j]) && on_grid(sh) && sh * cnt[m] == diff && on_grid(c[m][j]);
             }
         }
         let shift = matrix_dist(metric, &prev.c, &c);
-        outs.push(RefOut { st: KState { c, cnt }, shift, inertia });
+        if metric == Metric::L2 {
+            // the sum of squares of grid numbers is exact; the root is exact iff it is a grid
+            // number whose square gives the sum back
+            let s2: f64 = prev.c.iter().flatten().zip(c.iter().flatten()).map(|(a, b)| (a - b) * (a - b)).sum();
+            exact = exact && on_grid(shift) && shift * shift == s2;
+        }
+        outs.push(RefOut { st: KState { c, cnt }, shift, inertia, exact });
         // next combination
         let mut i = 0;
         loop {
@@ -184,8 +249,8 @@ fn ref_step(metric: Metric, prev: &KState, batch: &[Vec<f64>]) -> Option<(Vec<Re
     }
 }
 
-fn same_centroids(a: &KState, b: &KState) -> bool {
-    a.c.iter().zip(&b.c).all(|(r, s)| r.iter().zip(s).all(|(x, y)| close(*x, *y, KM_TOL, KM_TOL)))
+fn same_centroids(a: &KState, b: &KState, tol: f64) -> bool {
+    a.c.iter().zip(&b.c).all(|(r, s)| r.iter().zip(s).all(|(x, y)| close(*x, *y, tol, tol)))
 }
 
 enum Step<D: Distance<f64>> {
@@ -234,7 +299,8 @@ fn run_km_d<D: Distance<f64> + std::fmt::Debug + 'static>(case: &KmCase, dist_fn
         v
     };
     let ps: Vec<Params<D>> = case.tolerances.iter().map(|&t| params(case, t, dist_fn.clone())).collect();
-    let nb = case.pool.len();
+    let pool = expand_pool(case);
+    let nb = pool.len();
     let mut nodes: Vec<Node<D>> = vec![Node { model: None, st: None, hist: vec![] }];
     let mut index: HashMap<Vec<u8>, usize> = HashMap::new();
     let mut edges: HashMap<(usize, usize), usize> = HashMap::new();
@@ -252,7 +318,15 @@ fn run_km_d<D: Distance<f64> + std::fmt::Debug + 'static>(case: &KmCase, dist_fn
                     continue;
                 }
             }
-            let batch = &case.pool[b];
+            let batch = &pool[b];
+            let large = batch.len() > LARGE_BATCH;
+            let ctol = if large { KM_TOL_LARGE } else { KM_TOL };
+            let vband = if large { VERDICT_BAND_LARGE } else { VERDICT_BAND };
+            if large && depth == 0 {
+                out.bump("kmeans_large_batch_first_transitions", 1);
+            } else if large {
+                out.bump("kmeans_large_batch_later_transitions", 1);
+            }
             let mut hist = nodes[id].hist.clone();
             hist.push(b);
             // documented precondition of the random initialisation: at least k rows to draw from
@@ -316,14 +390,26 @@ fn run_km_d<D: Distance<f64> + std::fmt::Debug + 'static>(case: &KmCase, dist_fn
                         // seeded initialisation: the initial centroids are rows of the first batch
                         // (k distinct rows for "random", any k rows for "kmeans++"): every such
                         // choice is admissible, the observed model must follow from one of them
-                        let n = batch.len();
-                        let seqs = if case.init == "random" {
+                        // (a replicated large batch: any k of its distinct points, repeats allowed)
+                        let rows: Vec<Vec<f64>> = if large {
+                            let mut d: Vec<Vec<f64>> = Vec::new();
+                            for r in batch {
+                                if !d.contains(r) {
+                                    d.push(r.clone());
+                                }
+                            }
+                            d
+                        } else {
+                            batch.clone()
+                        };
+                        let n = rows.len();
+                        let seqs = if case.init == "random" && !large {
                             lvmc_core::enumerate::arrangements(n, case.k)
                         } else {
                             lvmc_core::enumerate::sequences(case.k, n)
                         };
                         seqs.iter()
-                            .map(|s| KState { c: s.iter().map(|&i| batch[i].clone()).collect(), cnt: vec![0.0; case.k] })
+                            .map(|s| KState { c: s.iter().map(|&i| rows[i].clone()).collect(), cnt: vec![0.0; case.k] })
                             .collect()
                     }
                 }
@@ -340,7 +426,10 @@ fn run_km_d<D: Distance<f64> + std::fmt::Debug + 'static>(case: &KmCase, dist_fn
                     None => capped = true,
                 }
             }
-            if capped {
+            let matching: Vec<&RefOut> = cands.iter().filter(|c| c.st.cnt == got.cnt && same_centroids(&c.st, &got, ctol)).collect();
+            if (capped && matching.is_empty()) || cands.is_empty() {
+                // some admissible starting point has too many equidistant assignments to enumerate
+                // and none of the enumerated ones explains the model: no verdict
                 out.indeterminate += 1;
                 out.bump("kmeans_transitions_skipped_tie_combinations_over_cap", 1);
                 continue;
@@ -351,7 +440,6 @@ fn run_km_d<D: Distance<f64> + std::fmt::Debug + 'static>(case: &KmCase, dist_fn
             if got.cnt.iter().any(|c| *c == 0.0) {
                 out.bump("kmeans_transitions_with_an_empty_cluster", 1);
             }
-            let matching: Vec<&RefOut> = cands.iter().filter(|c| c.st.cnt == got.cnt && same_centroids(&c.st, &got)).collect();
             if matching.is_empty() {
                 let cnt_ok = cands.iter().any(|c| c.st.cnt == got.cnt);
                 let sig = if !cnt_ok {
@@ -365,7 +453,7 @@ fn run_km_d<D: Distance<f64> + std::fmt::Debug + 'static>(case: &KmCase, dist_fn
                     format!(
                         "history {:?}: after batch {:?} from previous state {:?} the model has centroids {:?} / cluster_count {:?}; own recurrence (c += (x - c)/count in row order, cumulative counts) gives centroids {:?} / counts {:?}{}",
                         hist,
-                        batch,
+                        if large { &batch[..8] } else { &batch[..] },
                         prevs.first(),
                         got.c,
                         got.cnt,
@@ -383,10 +471,10 @@ fn run_km_d<D: Distance<f64> + std::fmt::Debug + 'static>(case: &KmCase, dist_fn
                 let mut verdicts: Vec<Option<bool>> = matching
                     .iter()
                     .map(|m| {
-                        if m.shift != tol && (m.shift - tol).abs() <= 1e-12 * m.shift.max(tol) {
-                            None
-                        } else {
+                        if m.exact || (m.shift - tol).abs() > vband * m.shift.max(tol) {
                             Some(m.shift < tol)
+                        } else {
+                            None
                         }
                     })
                     .collect();
@@ -401,8 +489,11 @@ fn run_km_d<D: Distance<f64> + std::fmt::Debug + 'static>(case: &KmCase, dist_fn
                         out.bump("kmeans_non_euclidean_verdicts_with_shift_strictly_between_tolerance_and_its_square", 1);
                     }
                 }
-                if matching.iter().any(|m| m.shift == tol) {
-                    out.bump("kmeans_verdicts_with_shift_exactly_equal_to_tolerance", 1);
+                if matching.iter().any(|m| m.exact && m.shift == tol) {
+                    out.bump("kmeans_verdicts_with_shift_equal_to_tolerance_decided_in_exact_arithmetic", 1);
+                }
+                if matching.iter().any(|m| m.exact) {
+                    out.bump("kmeans_verdicts_decided_in_exact_arithmetic", 1);
                 }
                 if *ok {
                     out.bump("kmeans_verdicts_converged", 1);
@@ -428,7 +519,7 @@ fn run_km_d<D: Distance<f64> + std::fmt::Debug + 'static>(case: &KmCase, dist_fn
                 }
             }
             // ---- inertia: mean reduced distance (squared for L2) of the batch rows to their nearest (previous) centroid ----
-            if !matching.iter().any(|m| close(m.inertia, got_inertia, 1e-12, 1e-12)) {
+            if !matching.iter().any(|m| close(m.inertia, got_inertia, ctol, ctol)) {
                 out.viols.push(Violation::new(
                     "kmeans.fit_with.inertia_not_mean_min_distance_of_batch",
                     format!("history {:?}: inertia {:e}, mean squared distance of the batch to the nearest centroid {:e}", hist, got_inertia, matching[0].inertia),
@@ -470,7 +561,7 @@ fn run_km_d<D: Distance<f64> + std::fmt::Debug + 'static>(case: &KmCase, dist_fn
                     okp = false;
                     break;
                 };
-                let r = match real_step(p0, m.as_ref(), &case.pool[b]) {
+                let r = match real_step(p0, m.as_ref(), &pool[b]) {
                     Step::Ok(x) | Step::NotConverged(x) => x,
                     _ => {
                         okp = false;
